@@ -1410,7 +1410,7 @@ Fixpoint dup_mov (seen : list (text * token)) (l : list top) : option token :=
   end.
 
 Definition parse_program (ts : toks) : res program :=
-  do st <- parse_tops (S (List.length ts)) {| pconsts := []; ph := hst0; ptops := []; ptexts := [] |} ts;
+  do st <- parse_tops (5 * List.length ts + 4) {| pconsts := []; ph := hst0; ptops := []; ptexts := [] |} ts;
   let texts := htexts (ph st) ++ ptexts st in
   match dup_text [] texts with
   | Some x => err_tok (xtok x) "duplicate text label"
